@@ -239,7 +239,7 @@ func sample(c Case) any {
 
 func gen(kind string) func(t *rapid.T) Case {
 	return func(t *rapid.T) Case {
-		c := Case{Kind: kind, Record: gbk.Draw(t, "r", vk.Pick(3000, 100000), 40)}
+		c := Case{Kind: kind, Record: gbk.Draw(t, "r", 100000, 40)}
 		if rapid.IntRange(0, 3).Draw(t, "long_definition") == 0 {
 			c.Record.Definition = gbk.Words(t, "long_definition", 100, 260) // up to ~2000 characters
 		}
